@@ -55,7 +55,7 @@ func verifDocSchema(part int) *schema.Schema {
 		t0.AddColumns(c)
 	case 1:
 		str := verifStrings[verifChoice("str", len(verifStrings))]
-		switch verifChoice("where", 10) {
+		switch verifChoice("where", 12) {
 		case 0:
 			d.SetDefault(&schema.Literal{V: quote(str)})
 		case 1:
@@ -80,6 +80,11 @@ func verifDocSchema(part int) *schema.Schema {
 			ts := schema.NewTimeColumn("ts", TypeTimestamp).SetDefault(&schema.RawExpr{X: "CURRENT_TIMESTAMP"})
 			ts.AddAttrs(&OnUpdate{A: "CURRENT_TIMESTAMP"})
 			t0.AddColumns(ts)
+		case 10:
+			g := schema.NewIntColumn("g", TypeBigInt).SetGeneratedExpr(&schema.GeneratedExpr{Expr: "(`n` + 1)", Type: []string{"STORED", "VIRTUAL"}[verifChoice("gentype", 2)]})
+			t0.AddColumns(g)
+		case 11:
+			t0.AddAttrs(&Engine{V: []string{"InnoDB", "MyISAM"}[verifChoice("engine", 2)], Default: verifBool("enginedefault")})
 		}
 	}
 	t0.AddColumns(d, n)
